@@ -30,6 +30,17 @@ ScenThirdInGap ==
     /\ (nmsg > 0 => fs["f3"].pc \in {"waiting", "done"})
 GoalThirdInGap == ~(fs["f1"].pc = "done" /\ fs["f3"].pc = "done")
 
+\* two Fetch calls of DIFFERENT identifiers (in the replay: a sample and a legacy range id whose
+\* identifier bytes coincide)
+WantsCross == [f \in {"f1", "f2"} |-> IF f = "f1" THEN <<"a">> ELSE <<"b">>]
+\* both requests are registered and waiting before the first block arrives; both must be served
+ScenCross == nmsg > 0 => \A f \in Fetchers : fs[f].pc \in {"waiting", "done"}
+ScenCrossAFirst == ScenCross /\ (("b" \in fs["f2"].got \/ chan["f2"] # << >>) => "a" \in fs["f1"].got)
+ScenCrossBFirst == ScenCross /\ (("a" \in fs["f1"].got \/ chan["f1"] # << >>) => "b" \in fs["f2"].got)
+GoalCross == ~(fs["f1"].pc = "done" /\ fs["f2"].pc = "done")
+BodiesAB == {[kind |-> "honest", of |-> "a", sq |-> "S"], [kind |-> "honest", of |-> "b", sq |-> "S"]}
+AliasBA == [c \in {"b"} |-> "a"]
+
 NoWide == [i \in {} |-> "a"]
 WideOnA == [i \in {"w"} |-> "a"]
 
